@@ -173,8 +173,19 @@ func rootOfLoc(loc, recv string) string {
 }
 
 // ruleReporterDiscipline is C12-R1.
-func ruleReporterDiscipline(c *core.Ctx, rule string) {
+func ruleReporterDiscipline(c *core.Ctx, rule string, only ...string) {
 	impls := reporterImpls(c.P)
+	if len(only) > 0 {
+		var f []*types.Named
+		for _, t := range impls {
+			for _, p := range only {
+				if t.Obj().Pkg().Path() == p {
+					f = append(f, t)
+				}
+			}
+		}
+		impls = f
+	}
 	if len(impls) == 0 {
 		c.Undecide(rule, "reporters", "universe", "-", "no type implements reporter.Reporter", nil)
 		return
